@@ -14,6 +14,7 @@ import (
 	"net/http/httptest"
 	"net/url"
 	"os"
+	"runtime"
 	"strings"
 	"sync"
 	"sync/atomic"
@@ -138,6 +139,48 @@ func main() {
 		}
 		if got, want := m.NetworkErrorCount(), int64(G*((N+2)/3)); got != want {
 			fail("RTMetrics.NetworkErrorCount = %d, want %d", got, want)
+		}
+		sc := m.StatusCodesCounts()
+		if got, want := sc[502], int64(G*((N+2)/3)); got != want {
+			fail("RTMetrics.StatusCodesCounts()[502] = %d, want %d", got, want)
+		}
+		if got, want := sc[200], int64(G*N-G*((N+2)/3)); got != want {
+			fail("RTMetrics.StatusCodesCounts()[200] = %d, want %d", got, want)
+		}
+	}
+
+	// 1a. first responses with a status code not seen before (a fresh collector, or the first ones after Reset, as right
+	// after a trip), arriving together: every one of them is counted
+	{
+		scenarios++
+		m, _ := memmetrics.NewRTMetrics()
+		lost := 0
+		for round := 0; round < 400; round++ {
+			m.Reset()
+			code := 500 + round%7
+			var start int32
+			var ready, done sync.WaitGroup
+			ready.Add(G)
+			done.Add(G)
+			for g := 0; g < G; g++ {
+				go func() {
+					defer done.Done()
+					ready.Done()
+					for atomic.LoadInt32(&start) == 0 {
+						runtime.Gosched()
+					}
+					m.Record(code, time.Millisecond)
+				}()
+			}
+			ready.Wait()
+			atomic.StoreInt32(&start, 1)
+			done.Wait()
+			if got := m.StatusCodesCounts()[code]; got != int64(G) {
+				lost++
+			}
+		}
+		if lost > 0 {
+			fail("RTMetrics: in %d of 400 rounds, %d first Records of a status code arriving together after Reset were not all counted", lost, G)
 		}
 	}
 
